@@ -11,7 +11,7 @@ def u_core(t): return t_unit('t_core', 'CORE', tier=t)
 def u_core4(t): return t_unit('t_core4', 'CORE4', tier=t)
 def u_conv(t): return t_unit('t_conv', 'CONV', tier=t)
 def u_exc(t, k): return t_unit('t_exc_ctl%d' % k, 'EXC', ['-DEXC_CTL=%d' % k], tier=t)
-def u_act(t, k=0): return t_unit('t_act_ctl%d' % k, 'ACT', ['-DACT_CTL=%d' % k], tier=t)
+def u_act(t, k=0, lazy=0): return t_unit('t_act_ctl%d%s' % (k, '_lazy' if lazy else ''), 'ACT', ['-DACT_CTL=%d' % k, '-DACT_LAZY=%d' % lazy], tier=t)
 
 
 EOLS = [('lf_crlf', 0), ('lf', 1), ('cr', 2), ('crlf', 3), ('cr_crlf', 4)]
@@ -77,8 +77,8 @@ CHECKS = {
         'assumptions': T_ASSUME,
     },
     'C04': {
-        'units': lambda t: [u_act(t, 0), u_core(t)],
-        'rule': 'tables over the classical operators plus enable/disable with void/bool apply/apply0 actions attached by rule id; every veto/throw '
+        'units': lambda t: [u_act(t, 0), u_act(t, 0, 1), u_core(t)],
+        'rule': 'tables over the classical operators plus enable/disable, action<>, apply/apply0/if_apply rules with void/bool apply/apply0 actions attached by rule id, eager and lazy inputs; every veto/throw '
                 'decision function with <=2 (thorough 3) non-default answers; oracle: online span/enabledness check at every invocation and equality '
                 'of the transactional action log with the reference derivation',
         'assumptions': T_ASSUME,
